@@ -15,12 +15,16 @@ import (
 // VerifServeConn serves the specified connection synchronously through the
 // real connection loop, in the goroutine of the caller.
 func (server *Server) VerifServeConn(conn net.Conn) error {
-	return server.receive(conn, nil)
+	handlerConn := newConnWith(conn, nil)
+	server.AddConn(handlerConn)
+	return server.receive(handlerConn)
 }
 
 // VerifServeTLSConn is VerifServeConn for a connection that carries a TLS state.
 func (server *Server) VerifServeTLSConn(conn net.Conn, tlsState *tls.ConnectionState) error {
-	return server.receive(conn, tlsState)
+	handlerConn := newConnWith(conn, tlsState)
+	server.AddConn(handlerConn)
+	return server.receive(handlerConn)
 }
 
 // VerifCommandNames returns the names of all registered command executors.
